@@ -248,6 +248,29 @@ Proof.
   intros Hs Hwf. destruct (c16 fx params user_ctrls size p rest s0 Hs Hwf) as (s' & Hd & Hst & Hres & Hw).
   exists s'. rewrite eo_drain_spec, Hd. cbn [app]. repeat split; assumption.
 Qed.
+
+(* the other response controls of the final result come through untouched and in order, wherever the paging control sat among them *)
+Definition others (cs : list ctl) : list ctl := filter (fun c => negb (is_paged c)) cs.
+Lemma filter_all_id {A} (f : A -> bool) l : (forall x, In x l -> f x = true) -> filter f l = l.
+Proof. induction l as [|a l IH]; intros H; [reflexivity|]. cbn. rewrite (H a (or_introl eq_refl)). f_equal. apply IH. intros x Hx. apply H. now right. Qed.
+Lemma strip_first_paged_others cs : (forall c1 c2, In c1 cs -> In c2 cs -> is_paged c1 = true -> is_paged c2 = true -> c1 = c2) -> NoDup cs ->
+  strip_first_paged cs = others cs.
+Proof.
+  induction cs as [|c l IH]; intros Hu Hnd; [reflexivity|]. cbn [strip_first_paged others filter]. destruct (is_paged c) eqn:Ec; cbn [negb].
+  - (* the (only) paging control: nothing paged is left in l *)
+    inversion Hnd as [|? ? Hnin _]; subst. symmetry. apply filter_all_id. intros x Hx.
+    destruct (is_paged x) eqn:Ex; [|reflexivity]. exfalso. assert (c = x) by (apply Hu; [now left|now right|assumption|assumption]). subst. contradiction.
+  - f_equal. inversion Hnd; subst. apply IH; [|assumption]. intros; apply Hu; auto; now right.
+Qed.
+Theorem c16_final_keeps_other_controls r : (forall c1 c2, In c1 (ctrls r) -> In c2 (ctrls r) -> is_paged c1 = true -> is_paged c2 = true -> c1 = c2) -> NoDup (ctrls r) ->
+  ctrls (final_of r) = others (ctrls r) /\ rc (final_of r) = rc r.
+Proof.
+  intros Hu Hnd. unfold final_of, find_paged. destruct (find is_paged (ctrls r)) as [c|] eqn:Ef.
+  - assert (Hc : exists sz ck, c = CPaged sz ck) by (apply find_some in Ef as [_ H]; destruct c; [eauto|discriminate]).
+    destruct Hc as (sz & ck & ->). cbn [ctrls rc]. split; [now apply strip_first_paged_others|reflexivity].
+  - split; [|reflexivity]. unfold others. symmetry. apply filter_all_id. intros x Hx. pose proof (find_none _ _ Ef x Hx) as H. now rewrite H.
+Qed.
 Print Assumptions c16.
 Print Assumptions c10_paged_early_finish.
 Print Assumptions c16_behind_entries_only.
+Print Assumptions c16_final_keeps_other_controls.
